@@ -15,7 +15,8 @@ from ..core import Phase, under_test, require
 ID = "C08"
 LEVEL = "exploration"
 RULE = (
-    "histories (<= 12 ops) on crops of 1..8 batches over {re-sow same shape, "
+    "histories (<= 12 ops) on crops of 1..8 batches (a fifth of them with "
+    "brackets and spaces in the crop name or its directory) over {re-sow same shape, "
     "Crop.grow(ids), xyzpy.grow(i), grow_missing, change the set of settings "
     "on which the function fails and the exception it raises there "
     "(FlakyError / StopIteration / KeyError / ValueError / EOFError; side "
@@ -48,10 +49,14 @@ def run_case(case):
     kind = case.get("kind", "int")
     stats = collections.Counter()
     with core.scratch("xv-c08-") as root:
+        if case.get("odd_path") == "dir":
+            # directory and crop names are free text: brackets, spaces ...
+            root = os.path.join(root, "sweeps [v2]")
+            os.makedirs(root)
         failfile = os.path.join(root, "fail.json")
         fn = functools.partial(models.flaky_fn, _xv=(failfile, kind))
         combos = {"a": list(range(N))}
-        name = "c8"
+        name = "run[1]" if case.get("odd_path") == "name" else "c8"
 
         def sow(crop):
             crop.sow_combos(combos, verbosity=0)
@@ -321,7 +326,9 @@ def strategy(draw):
     return {"N": N, "spec": spec,
             "kind": draw(st.sampled_from(["int", "str", "ndarray"])),
             "ops": draw(st.lists(op, min_size=1, max_size=12)),
-            "qrot": draw(st.integers(0, 4))}
+            "qrot": draw(st.integers(0, 4)),
+            "odd_path": draw(st.sampled_from([None, None, None, "name",
+                                              "dir"]))}
 
 
 PHASES = [
